@@ -23,7 +23,7 @@ def r145_frame(ctx, res):
     frame vectors must be perpendicular to the normal *by construction* (cross products with the normal
     as a factor), perpendicular to each other, and of equal length"""
     import ast
-    from ..astutil import assigned_names, txt
+    from ..astutil import assigned_names, expand_locals, txt
     from ..model import walk_local
     from ..rcross import _strip_norm
 
@@ -51,9 +51,11 @@ def r145_frame(ctx, res):
     # the translation applied to the centre:  v1 * cos + v2 * sin
     frame = []
     for c in walk_local(fi.node):
-        if isinstance(c, ast.Call) and isinstance(c.func, ast.Attribute) and c.func.attr == "move" and c.args \
-                and isinstance(c.args[0], ast.BinOp) and isinstance(c.args[0].op, ast.Add):
-            for side in (c.args[0].left, c.args[0].right):
+        if not (isinstance(c, ast.Call) and isinstance(c.func, ast.Attribute) and c.func.attr == "move" and c.args):
+            continue
+        arg0 = expand_locals(fi.node, c.args[0], fi.params)
+        if isinstance(arg0, ast.BinOp) and isinstance(arg0.op, ast.Add):
+            for side in (arg0.left, arg0.right):
                 if isinstance(side, ast.BinOp) and isinstance(side.op, ast.Mult):
                     for x in (side.left, side.right):
                         if isinstance(x, ast.Name) and x.id in asg:
